@@ -339,6 +339,23 @@ func runC19(r *core.Run) {
 				}
 			}
 		}
+		// JSON documents whose objects do not share one key set, nested values, scalars
+		raw := map[string]string{
+			"later-keys.json":  `[{"id":1,"name":"a"},{"id":2,"name":"b","note":"x"},{"id":3},{"zz":null}]`,
+			"later-keys.jsonl": "{\"id\":1}\n{\"id\":2,\"note\":\"x\"}\n{\"other\":true}\n",
+			"nested.json":      `[{"a":{"b":1,"c":[1,2]}},{"a":2},{"a":{"b":{"d":null}}}]`,
+			"scalars.json":     `[1,"x",null,{"a":1},[2]]`,
+			"object.json":      `{"a":1,"b":{"c":2}}`,
+			"empty-key.json":   `[{"":1,"a":2},{"a":{"":3}}]`,
+			"dup-key.json":     `[{"a":1,"a":2},{"A":3}]`,
+		}
+		for name, c := range raw {
+			files[name] = c
+			for qi, q := range []string{"SELECT * FROM %s", "SELECT COUNT(*) FROM %s", "SELECT * FROM %s ORDER BY 1", "SELECT * FROM %s WHERE note IS NULL", "SELECT JSON_AGG(id) FROM %s", "INSERT INTO %s VALUES (9); SELECT * FROM %s", "UPDATE %s SET id = 5; COMMIT", "SELECT * FROM JSON_TABLE('', %s)"} {
+				stmts = append(stmts, strings.ReplaceAll(q, "%s", "`"+name+"`")+"; ROLLBACK;")
+				tags = append(tags, fmt.Sprintf("json:%s:q%d", strings.TrimSuffix(strings.TrimSuffix(name, ".json"), ".jsonl"), qi))
+			}
+		}
 		cl, er := isolatedExec(r, stmts, files)
 		for i := range stmts {
 			r.Distinct("odd:" + tags[i])
